@@ -636,8 +636,17 @@ def p15_interval_loops(ctx):
                 on = inf["on"]
                 if not origin_mentions(on, lambda x: x[0] == "call" and x[3] == site):
                     continue
-                if not origin_mentions(on, lambda x: x[0] == "variant" and x[2] == "Continue"):
-                    continue  # the JoinHandle's own `?`
+                # the JoinHandle's own `?` (also behind map_err): the only test whose error side may end the task.
+                # Anything else that carries this call's outcome — the inner Result behind that `?`, or both layers
+                # merged by and_then / flatten — carries the action's error
+                jo = peel_var(on)
+                if jo[0] == "try":
+                    jo = peel_var(jo[1])
+                while jo[0] == "call" and jo[1] and jo[1].split("::")[-1] in ("map_err", "into", "from") and jo[2]:
+                    jo = peel_var(jo[2][0])
+                jf = awaited(jo)
+                if jf is not None and jf[0] == "call" and jf[3] == site and not origin_mentions(jo, lambda x: x[0] == "variant" and x[2] in ("Continue", "Ok")):
+                    continue
                 for e in b.succ[bb]:
                     if set(inf["arms"].get(e.dst, [])) & {"Err", "Break"}:
                         inner.append((bb, e.dst))
